@@ -56,17 +56,9 @@ def build_line(rng, S, shape, defx, xs, flat, qs, ext):
         e = {"scalar": lambda: e_scalar(S, q), "single": lambda: e_single(S, q),
              "into": lambda: e_into(S, q, shape[1:], rng.choice(gen.LAYS_ND))}[ent]()
     else:
-        # query arrays of rank 0..3
-        k = rng.choice([0, 1, 1, 1, 2, 3])
-        if k == 0:
-            qshape, ql = [], qs[:1]
-        elif k == 1:
-            qshape, ql = [len(qs)], qs
-        elif k == 2:
-            a = max(1, len(qs) // 2)
-            qshape, ql = [a, 2], (qs * 2)[:a * 2]
-        else:
-            qshape, ql = [1, 2, 2], (qs * 4)[:4]
+        # query arrays of rank 0..4
+        qshape = gen.query_shape(rng, len(qs))
+        (ql,) = gen.fill_shape(rng, qshape, qs) if len(qshape) != 1 else (qs,)
         dtag, qtag = gen.pick_dims(rng, r, len(qshape))
         meta["qs"] = ql
         meta["qshape"] = qshape
